@@ -91,6 +91,11 @@ func scenarios() []scenario {
 			{{"scan", "a b c", -1}, {"scan", "T | where aa == 1 and bb == 2 and cc == 3 and dd == 4 | project aa, bb, cc, dd, ee, ff | take 5", -1}, {"scan", "x", -1}},
 			{{"parse", "T | where a | project b", -1}, {"scan", "Other | where zz1 == zz2 or zz3 == zz4 or zz5 == zz6 or zz7 == zz8 or zz9 == zz10 | count | count | count", -1}, {"parse", "U", -1}},
 		}},
+		{Name: "S10-joins-and-walks", Threads: [][]call{
+			{c("L | where x > 1 | join kind=inner (R | where y > 0) on k, $left.x < $right.y | project x, y", -1)},
+			{c("A | join (B | join kind=leftouter (C) on $left.b == $right.c) on $left.a == $right.b | count", -1)},
+			{{"walk", "T | where a > 1 and b in (1, 2) | join (R | project k, y) on k | project a, s = strcat(b, 'x') | top 3 by a", -1}},
+		}},
 		{Name: "S6-two-threads-two-calls", Threads: [][]call{
 			{c("T | where isnotnull(a)", -1), c("T | where isnotnull(a)", -1)},
 			{c("T | extend x = tolower(s)", -1), {"parse", "T | count", -1}},
@@ -172,8 +177,37 @@ func doCall(c call, opts []*pql.CompileOptions) result {
 		return r
 	case "split":
 		return result{Out: fmt.Sprintf("%q", parser.SplitStatements(c.Src))}
+	case "walk":
+		st, err := parser.Parse(c.Src)
+		var sb strings.Builder
+		for _, s := range st {
+			parser.Walk(s, func(n parser.Node) bool {
+				fmt.Fprintf(&sb, "%T%v ", n, n.Span())
+				// a visitor may itself walk a subtree (and then prune it)
+				if j, ok := n.(*parser.JoinOperator); ok && j.Right != nil {
+					parser.Walk(j.Right, func(m parser.Node) bool { fmt.Fprintf(&sb, "<%T%v> ", m, m.Span()); return true })
+					return false
+				}
+				return true
+			})
+		}
+		r := result{Out: sb.String()}
+		if err != nil {
+			r.Err = err.Error()
+		}
+		return r
 	}
 	panic("unknown call kind")
+}
+
+// doCallSafe turns a panic of the library into a result.
+func doCallSafe(c call, opts []*pql.CompileOptions) (res result) {
+	defer func() {
+		if p := recover(); p != nil {
+			res = result{Err: fmt.Sprintf("panic: %v", p)}
+		}
+	}()
+	return doCall(c, opts)
 }
 
 func describe(st []parser.Statement) string {
@@ -430,7 +464,7 @@ func main() {
 		}
 		return true, ""
 	}
-	r.Rule = "stateless model checking of the real pql code under a controlled cooperative scheduler: 9 scenarios of 2-3 threads x 1-3 calls (cold start of the lazily built function table, shared options value with let statements, Parse/Scan/SplitStatements, mixed) are explored exhaustively over all interleavings of scheduling points " +
+	r.Rule = "stateless model checking of the real pql code under a controlled cooperative scheduler: 10 scenarios of 2-3 threads x 1-3 calls (cold start of the lazily built function table, shared options value with let statements, Parse/Scan/SplitStatements, mixed) are explored exhaustively over all interleavings of scheduling points " +
 		"(every access to a package-level variable that is ever written, every access to a shared map that is ever written, every sync/atomic operation) up to a preemption bound, plus all sequential call histories up to depth 3; oracle: each call returns exactly what it returns when made first in a fresh state, " +
 		"no co-enabled conflicting accesses (data race), no deadlock, parameter maps unchanged. states = nodes of the schedule tree, transitions = scheduling decisions executed, traces validated = complete executions of the real code"
 	r.Assume = []string{"sequentially consistent interleavings at instrumented points; reads of objects that no execution ever writes commute and are not scheduling points (iterated to a fixpoint)",
@@ -445,6 +479,12 @@ func main() {
 	info := map[string]any{}
 	r.Serial(func(w *run.Worker) {
 		scs := scenarios()
+		if n := os.Getenv("VERIF_C14_UNCONTROLLED"); n != "" {
+			// goroutines started by the library itself run outside the cooperative scheduler: the interleaving explorer
+			// cannot own their scheduling, so it does not run; the call histories and the free-running pass still do
+			r.Cap("interleaving explorer not run: the code under test contains " + n + " go statements / channel operations that the scheduler does not control")
+			scs = nil
+		}
 		// the largest scenario last; every scenario may use an equal share of what is left
 		sort.SliceStable(scs, func(i, j int) bool {
 			return scs[i].Name == "S5-same-source-first-use" && false || (scs[j].Name == "S5-same-source-first-use" && scs[i].Name != scs[j].Name)
@@ -745,6 +785,23 @@ func replayViol(w *run.Worker, v *run.Viol) {
 		e.check(ex, o, prefix, err)
 		return
 	}
+	if raw, ok := v.Extra["repeat"]; ok {
+		var c call
+		b, _ := json.Marshal(raw)
+		json.Unmarshal(b, &c)
+		w.Begin(v.Check, v.Source)
+		rt.Restore()
+		first := doCallSafe(c, mkOptions())
+		for rep := 0; rep < 300; rep++ {
+			rt.Restore()
+			recheckLive()
+			if again := doCallSafe(c, mkOptions()); again != first {
+				w.Fail(v.Sig, c.Src, fmt.Sprintf("%s %q returns %+v and %+v", c.Kind, c.Src, first, again), nil)
+				return
+			}
+		}
+		return
+	}
 	// sequential histories: run the recorded calls again and compare every call with its fresh-state result
 	var calls []call
 	for _, key := range []string{"calls", "pair"} {
@@ -761,14 +818,14 @@ func replayViol(w *run.Worker, v *run.Viol) {
 	for i, c := range calls {
 		rt.Restore()
 		recheckLive()
-		fresh[i] = doCall(c, mkOptions())
+		fresh[i] = doCallSafe(c, mkOptions())
 	}
 	rt.Restore()
 	recheckLive()
 	opts := mkOptions()
 	pristine := mkOptions()
 	for i, c := range calls {
-		got := doCall(c, opts)
+		got := doCallSafe(c, opts)
 		if got != fresh[i] {
 			w.Fail("result-depends-on-history", c.Src, fmt.Sprintf("call %d (%s %q, options #%d) returns %+v, but %+v when made first", i, c.Kind, c.Src, c.Opt, got, fresh[i]), nil)
 			return
@@ -845,6 +902,7 @@ func pairAlphabet(tier string) []call {
 		add("compile", sb.String(), -1)
 		add("compile", src+" | where not(a, b)", -1)
 		add("compile", src, 4)
+		add("walk", src, -1)
 		switch i % 24 / 8 * 8 {
 		case 0:
 			add("parse", src, -1)
@@ -870,11 +928,28 @@ func pairHistories(w *run.Worker, r *run.Runner, tier string) {
 		}()
 		return doCall(c, opts)
 	}
-	for i, c := range alpha {
+	var stable []call
+	var stableFresh []result
+	for _, c := range alpha {
 		rt.Restore()
 		recheckLive()
-		fresh[i] = safe(c, mkOptions())
+		first := safe(c, mkOptions())
+		ok := true
+		for rep := 0; rep < 4 && ok; rep++ {
+			rt.Restore()
+			recheckLive()
+			if again := safe(c, mkOptions()); again != first {
+				w.Begin("pair-histories", c.Src)
+				w.Fail("result-not-deterministic:"+c.Kind, c.Src, fmt.Sprintf("%s %q (options #%d) made first in a fresh state returns %+v, the same call again %+v", c.Kind, c.Src, c.Opt, first, again), map[string]any{"repeat": c})
+				ok = false
+			}
+		}
+		if ok {
+			stable = append(stable, c)
+			stableFresh = append(stableFresh, first)
+		}
 	}
+	alpha, fresh = stable, stableFresh
 	recheckLive()
 	var count int64
 	pristine := mkOptions()
